@@ -410,7 +410,7 @@ def main(argv=None):
             elif rr["failed"] or not rr.get("obs_agree", True):
                 # a path whose symbolic claims were all discharged must not fail concretely,
                 # unless this path is the one a candidate came from
-                replay_mismatch.append({"item": {k: it[k] for k in ("harness", "config", "inputs")}, "replay": rr})
+                replay_mismatch.append({"item": {k: it.get(k) for k in ("harness", "config", "inputs", "inputs_alt")}, "replay": rr})
             else:
                 replay_ok += 1
 
@@ -424,6 +424,32 @@ def main(argv=None):
         key_cfg = json.dumps(it["config"], sort_keys=True)
         if fl and m["replay"].get("obs_agree", True) and all((it["harness"], key_cfg, f["label"]) in cand_labels for f in fl):
             replay_ok += 1
+            continue
+        # The real code fails a claim on a concrete input that the solver generated for a path whose
+        # claims it had discharged over the reals: the failing run is a fact about the real code
+        # (float64 behaviour the real-arithmetic encoding cannot see, A1) -- it is reported as a
+        # violation with that input, not as an engine/real-code disagreement.
+        rr = m["replay"]
+        if fl and rr.get("status") == "ok":
+            for f in fl:
+                if (it["harness"], key_cfg, f["label"]) in cand_labels:
+                    continue
+                cand = {
+                    "kind": "cex",
+                    "harness": it["harness"],
+                    "config": it["config"],
+                    "inputs": (it.get("inputs_alt") if rr.get("used_alt") else it["inputs"]),
+                    "inputs_alt": None,
+                    "label": f["label"],
+                    "info": f.get("info"),
+                    "found_by": "replay of a solver-generated path model on the real code: the solver discharged this claim over the reals on that path, the real float64 run fails it",
+                    "replay": {k: rr.get(k) for k in ("inputs", "failed", "obs_got", "obs_pred")},
+                }
+                k = classify(pid, cand["harness"], cand["config"], cand["label"], rr.get("inputs", cand["inputs"]), known)
+                if k is not None:
+                    known_seen.setdefault(k["id"], {"finding": k, "example": cand})
+                else:
+                    violations.append(cand)
             continue
         real_mismatch.append(m)
 
